@@ -55,14 +55,14 @@ theorem C11_resume_enqueues_once (s : State) (c : Nat) (cmd : Cmd) (hp : s.pend.
 /-- hypotheses of 1, 2, 2' are satisfiable: capacity 1, the first put is queued, the second parks,
     after a worker step `resume` is enabled -/
 example :
-    let s0 := State.init (cfgCap 1) 0 []
+    let s0 := State.init (qcfg 1) 0 []
     s0.worker ≠ .dead ∧ s0.queue.length < s0.cfg.cmdCap := by decide
 example :
-    (runEvs (State.init (cfgCap 1) 0 []) [.putW 0 1 10 1]).map
+    (qrun (State.init (qcfg 1) 0 []) [.putW 0 1 10 1]).map
       (fun r => (decide (r.1.worker ≠ .dead), decide (r.1.queue.length ≥ r.1.cfg.cmdCap))) = some (true, true) := by
   decide
 example :
-    (runEvs (State.init (cfgCap 1) 0 []) [.putW 0 1 10 1, .putW 1 2 20 1, .worker]).map
+    (qrun (State.init (qcfg 1) 0 []) [.putW 0 1 10 1, .putW 1 2 20 1, .worker]).map
       (fun r => (r.1.pend.get? 1, decide (r.1.worker ≠ .dead), decide (r.1.queue.length < r.1.cfg.cmdCap))) =
     some (some (.send (.put 2 2 1 2 20)), true, true) := by decide
 
@@ -76,7 +76,7 @@ theorem C11_worker_takes_head {s s' : State} {o o' : Oracle} {out : Out}
       (∀ i, some i ≠ hd → s'.acks[i]? = s.acks[i]?) ∧
       ∃ kind st ie pp ev, out = .worked kind st ie pp ev ∧ st ≠ .pending ∧
         ∀ i, hd = some i → i < s.acks.length → s'.acks[i]? = some st := by
-  obtain ⟨-, cmd, hd, q, hq, hpost⟩ := workerStep_spec h
+  obtain ⟨-, cmd, hd, q, hq, hpost⟩ := workerStep_qspec h
   rcases hpost.outcome with ⟨p, hp, -⟩ | ⟨kind, st, ie, pp, ev, hout, hst, hq', ha, -⟩
   · exact absurd hp (hnp p)
   · refine ⟨cmd, hd, by rw [hq', hq], ?_, kind, st, ie, pp, ev, hout, hst, ?_⟩
@@ -98,7 +98,7 @@ theorem C11_worker_takes_head {s s' : State} {o o' : Oracle} {out : Out}
 theorem C11_panic_drops_queue {s s' : State} {o o' : Oracle} {p : Panic}
     (h : workerStep s o = .ok (s', .workerPanic p, o')) :
     s.worker = .running ∧ s'.worker = .dead ∧ s'.queue = [] ∧ s'.acks = s.acks := by
-  obtain ⟨-, cmd, hd, q, hq, hpost⟩ := workerStep_spec h
+  obtain ⟨-, cmd, hd, q, hq, hpost⟩ := workerStep_qspec h
   rcases hpost.outcome with ⟨p', -, h1, -, h2, h3, h4⟩ | ⟨kind, st, ie, pp, ev, hout, -⟩
   · exact ⟨h1, h2, h3, h4⟩
   · cases hout
@@ -106,7 +106,7 @@ theorem C11_panic_drops_queue {s s' : State} {o o' : Oracle} {p : Panic}
 /-- concrete instance of the exception: `put_with_ttl` with an unrepresentable expiry panics on the worker;
     the delete queued behind it is dropped and both acknowledgements stay pending -/
 example :
-    (runEvs (State.init (cfgCap 2) 0 []) [.putTtl 0 1 10 (10 ^ 29), .delete 1 2, .worker]).map
+    (qrun (State.init (qcfg 2) 0 []) [.putTtl 0 1 10 (10 ^ 29), .delete 1 2, .worker]).map
       (fun r => (r.1.qview, r.2)) =
     some (⟨[], [.pending, .pending], .dead, false, []⟩,
       [.ack 0 .pending, .ack 1 .pending, .workerPanic .timeOverflow]) := by decide
@@ -119,7 +119,7 @@ theorem C11_only_worker_completes {s s' : State} {ev : Ev} {o o' : Oracle} {out 
     (h : step s ev o = .ok (s', out, o')) :
     (∀ i, i < s.acks.length → s'.acks[i]? = s.acks[i]?) ∧
     (s'.queue = s.queue ∨ ∃ x, s'.queue = s.queue ++ [x]) := by
-  have m := mono_step hev h
+  have m := qmono_step hev h
   refine ⟨?_, m.queue⟩
   intro i hi
   rcases m.acks with e | ⟨st, e⟩
@@ -162,7 +162,7 @@ theorem C11_acks_stable {s s' : State} {ev : Ev} {o o' : Oracle} {out : Out} (hi
   by_cases hev : ev = .worker
   · subst hev
     have hw : workerStep s o = .ok (s', out, o') := h
-    obtain ⟨-, cmd, hd, q, hq, hpost⟩ := workerStep_spec hw
+    obtain ⟨-, cmd, hd, q, hq, hpost⟩ := workerStep_qspec hw
     rcases hpost.outcome with ⟨p, -, -, -, -, -, ha⟩ | ⟨kind, st', ie, pp, ev, -, -, -, ha, -⟩
     · rw [ha]; exact hi
     · rw [ha]
@@ -181,10 +181,10 @@ theorem C11_acks_stable {s s' : State} {ev : Ev} {o o' : Oracle} {out : Out} (hi
 /-- hypotheses satisfiable: a reachable state with two queued handles (0 before 1), and one with an answered
     handle -/
 example :
-    (runEvs (State.init (cfgCap 2) 0 []) [.putW 0 1 10 1, .delete 1 1]).map (fun r => queueHandles r.1) =
+    (qrun (State.init (qcfg 2) 0 []) [.putW 0 1 10 1, .delete 1 1]).map (fun r => queueHandles r.1) =
     some [0, 1] := by decide
 example :
-    (runEvs (State.init (cfgCap 2) 0 []) [.putW 0 1 10 1, .delete 1 1, .worker]).map
+    (qrun (State.init (qcfg 2) 0 []) [.putW 0 1 10 1, .delete 1 1, .worker]).map
       (fun r => (r.1.acks, queueHandles r.1)) = some ([.accepted, .pending], [1]) := by decide
 
 /-! ### 6: put, then delete -/
@@ -212,7 +212,7 @@ theorem C11_delete_step_leaves_absent {s s' : State} {o o' : Oracle} {out : Out}
   rw [hw, hq] at h
   simp only [] at h
   obtain ⟨s1, st, he, hg, -⟩ := C11_delete_leaves_absent { s with queue := q, worker := .running } k
-  have hsame := (workerDelete_spec { s with queue := q, worker := .running } k).1
+  have hsame := (workerDelete_qspec { s with queue := q, worker := .running } k).1
   rw [he] at h hsame
   simp only [Except.ok.injEq, Prod.mk.injEq] at h
   obtain ⟨rfl, -, -⟩ := h
@@ -225,7 +225,7 @@ theorem C11_put_then_delete {s s1 s2 : State} {o o1 o2 : Oracle} {out1 out2 : Ou
     (hq : s.queue = (cmd, h1) :: (.delete k, h2) :: q)
     (hs1 : workerStep s o = .ok (s1, out1, o1)) (hnp : ∀ p, out1 ≠ .workerPanic p)
     (hs2 : workerStep s1 o1 = .ok (s2, out2, o2)) : s2.store.get? k = none ∧ s2.queue = q := by
-  obtain ⟨-, cmd', hd', q', hq0, hpost⟩ := workerStep_spec hs1
+  obtain ⟨-, cmd', hd', q', hq0, hpost⟩ := workerStep_qspec hs1
   rw [hq] at hq0
   simp only [List.cons.injEq, Prod.mk.injEq] at hq0
   obtain ⟨⟨rfl, rfl⟩, rfl⟩ := hq0
@@ -243,7 +243,7 @@ theorem C11_put_then_delete {s s1 s2 : State} {o o1 o2 : Oracle} {out1 out2 : Ou
     put was executed after `shutdown()` cleared the store: key 2 stays in the store (no reader can see it:
     reads are refused after shutdown, C13). -/
 theorem C11_shutdown_corner :
-    (runEvs (State.init (cfgCap 2) 0 [])
+    (qrun (State.init (qcfg 2) 0 [])
       [.putW 0 1 10 1, .putW 0 2 20 1, .delete 1 2, .worker, .shutdown 2, .worker, .resume 1, .worker, .worker]).map
       (fun r => (r.1.acks, r.1.store.contains 2, r.1.worker)) =
     some ([.accepted, .accepted, .shuttingDown], true, .draining) := by decide
@@ -254,24 +254,24 @@ theorem C11_shutdown_corner :
     and makes room; `resume` enqueues the second with handle 1; a worker step executes it.
     Handles 0 and 1 complete in that order, nothing is lost, nothing is executed twice. -/
 example :
-    (runEvs (State.init (cfgCap 1) 0 []) [.putW 0 1 10 1, .putW 1 2 20 1]).map (fun r => (r.1.qview, r.2)) =
+    (qrun (State.init (qcfg 1) 0 []) [.putW 0 1 10 1, .putW 1 2 20 1]).map (fun r => (r.1.qview, r.2)) =
     some (⟨[(.put 1 1 1 1 10, some 0)], [.pending], .running, false, [(1, .send (.put 2 2 1 2 20))]⟩,
       [.ack 0 .pending, .parked]) := by decide
 
 example :
-    (runEvs (State.init (cfgCap 1) 0 []) [.putW 0 1 10 1, .putW 1 2 20 1, .worker]).map
+    (qrun (State.init (qcfg 1) 0 []) [.putW 0 1 10 1, .putW 1 2 20 1, .worker]).map
       (fun r => (r.1.qview, r.2)) =
     some (⟨[], [.accepted], .running, false, [(1, .send (.put 2 2 1 2 20))]⟩,
       [.ack 0 .pending, .parked, .worked "Put" .accepted none [] []]) := by decide
 
 example :
-    (runEvs (State.init (cfgCap 1) 0 []) [.putW 0 1 10 1, .putW 1 2 20 1, .worker, .resume 1]).map
+    (qrun (State.init (qcfg 1) 0 []) [.putW 0 1 10 1, .putW 1 2 20 1, .worker, .resume 1]).map
       (fun r => (r.1.qview, r.2)) =
     some (⟨[(.put 2 2 1 2 20, some 1)], [.accepted, .pending], .running, false, []⟩,
       [.ack 0 .pending, .parked, .worked "Put" .accepted none [] [], .ack 1 .pending]) := by decide
 
 example :
-    (runEvs (State.init (cfgCap 1) 0 []) [.putW 0 1 10 1, .putW 1 2 20 1, .worker, .resume 1, .worker]).map
+    (qrun (State.init (qcfg 1) 0 []) [.putW 0 1 10 1, .putW 1 2 20 1, .worker, .resume 1, .worker]).map
       (fun r => (r.1.qview, r.2, r.1.store.contains 1, r.1.store.contains 2)) =
     some (⟨[], [.accepted, .accepted], .running, false, []⟩,
       [.ack 0 .pending, .parked, .worked "Put" .accepted none [] [], .ack 1 .pending,
@@ -279,11 +279,11 @@ example :
 
 /-- `resume` while the queue is still full is not an event the implementation can produce -/
 example :
-    (runEvs (State.init (cfgCap 1) 0 []) [.putW 0 1 10 1, .putW 1 2 20 1, .resume 1]).isNone = true := by decide
+    (qrun (State.init (qcfg 1) 0 []) [.putW 0 1 10 1, .putW 1 2 20 1, .resume 1]).isNone = true := by decide
 
 /-- put then delete of the same key without awaiting: absent at the end -/
 example :
-    (runEvs (State.init (cfgCap 2) 0 []) [.putW 0 1 10 1, .delete 0 1, .worker, .worker]).map
+    (qrun (State.init (qcfg 2) 0 []) [.putW 0 1 10 1, .delete 0 1, .worker, .worker]).map
       (fun r => (r.1.acks, r.1.store.get? 1)) = some ([.accepted, .accepted], none) := by decide
 
 end Cached
